@@ -61,9 +61,10 @@ func VerifBridge() {
 			br.DropNextNWrites(dir, n)
 			dropN[dir] = n
 		case 2:
-			// a new request while an earlier one is still collecting is outside the script language
-			vAssume(reorderN[dir] == 0)
+			// a new request while an earlier one is still collecting keeps the held messages and
+			// restarts the count (a count of 0 with messages held would strand them: not used)
 			n := vIntR("n", i, 0, 3)
+			vAssume(stack[dir].n == 0 || n >= 1)
 			br.ReorderNextNWrites(dir, n)
 			reorderN[dir] = n
 		case 3: // Drop(from, offset, n) within the queue
@@ -90,6 +91,8 @@ func VerifBridge() {
 		}
 		vAssume(ref[0].n < verifBrMax-1 && ref[1].n < verifBrMax-1)
 
+		// messages held back by a pending reorder request are neither lost nor multiplied
+		vAssert(len(br.stack0) == stack[0].n && len(br.stack1) == stack[1].n, "C18: messages held back for reordering are kept until they are delivered")
 		// compare both directions with the reference model
 		sk := vIntR("skolem", i, 0, 2)
 		for d := 0; d < 2; d++ {
